@@ -194,8 +194,12 @@ func (s *Server) Run(addr string, opt ...Option) error {
 		s.connWg.Add(1)
 		go func() {
 			defer func() {
-				s.logger.Debug("connWg done", "op", op, "conn", localConnID)
-				s.connWg.Done()
+				// release the wait group last: Stop must not return before the
+				// connection is closed and the OnClose callback has completed
+				defer func() {
+					s.logger.Debug("connWg done", "op", op, "conn", localConnID)
+					s.connWg.Done()
+				}()
 				err := conn.close()
 				if err != nil {
 					s.logger.Error("error closing conn", "op", op, "conn", localConnID, "conn/req", "err", err)
